@@ -2,7 +2,7 @@
    sender and the receiver machine over perfect FIFO queues. *)
 From Coq Require Import ZArith Lia.
 From Trzsz Require Import Base.Bytes Gen.Consts Model.Path Model.Fs Model.Names Model.Escape Model.Base64
-  Model.Wire Model.Transfer Proofs.PathFs Proofs.Names Proofs.Wire Proofs.TransferFs.
+  Model.Wire Model.Transfer Proofs.PathFs Proofs.Names Proofs.Wire Proofs.TransferFs Proofs.TransferProgress.
 
 (* The model's reading of the source is pinned to what the translator found: the decision
    list of isCompressFixed, the protocol switches, and the order of the per-file calls. *)
@@ -942,6 +942,23 @@ Proof.
   destruct (tr_spec c d (map fst ess) (init_state f0) []) as [[[per all] stf]|] eqn:Hs.
   - apply (transfer_ok c d ess f0 per all stf Ht Hb Hd Hwf Hs fuel' Hf').
   - destruct (run_incomplete c d ess f0 Ht Hb Hdj Hs fuel' Hf') as [A B]. rewrite A, B in Hok. destruct Hok; discriminate.
+Qed.
+
+(* the same with the acceptance premise replaced by a condition on the inputs *)
+Theorem transfer_ready c d ess f0 : table_ok c ->
+  Forall (fun es => bytes_ok (te_data (fst es)) = true) ess ->
+  stat f0 d = SFound Dir -> Forall tr_comp_ok d -> tr_ready c d f0 (map fst ess) ->
+  forall fuel, (tr_fuel digest zcomp c ess <= fuel)%nat ->
+  tr_outcome_ok c d f0 ess (tr_run digest H deq zcomp zdecomp zl unzl fuel c d ess f0) /\
+  ss_names (cf_s digest (tr_run digest H deq zcomp zdecomp zl unzl fuel c d ess f0)) =
+    fold_left tr_add_name (map (tr_key c) (map fst ess)) [].
+Proof.
+  intros Ht Hb Hd Hdc Hr fuel Hf.
+  destruct (ready_accepts c d Hdc f0 (map fst ess) Hd Hr) as (all & stf & Hs).
+  pose proof (ready_wf c d f0 (map fst ess) Hr) as Hwf.
+  split; [apply (transfer_ok c d ess f0 _ all stf Ht Hb Hd Hwf Hs fuel Hf)|].
+  rewrite (run_complete c d ess f0 _ all stf Ht Hb Hs fuel Hf). cbn [final_conf cf_s ss_names].
+  destruct (spec_tree c d f0 (map fst ess) _ all stf Hd Hwf Hs) as (_ & A & _). exact A.
 Qed.
 
 End TransferProofs.
